@@ -309,6 +309,11 @@ Fixpoint c_read (fuel : nat) (c : codec) (dest : gval) (bs : bytes) {struct c} :
       | VSlice acc0 =>
         obind (blocks false (fun acc b0 => obind (c_read fuel ic iz b0) (fun v r => Done (acc ++ [v]) r)) fuel acc0 bs)
               (fun vs r => Done (VSlice vs) r)
+      | VBytes acc0 =>
+        (* an array schema read into a []byte field: the items are the bytes *)
+        obind (blocks false (fun acc b0 => obind (c_read fuel ic iz b0)
+                                             (fun v r => Done (acc ++ [match v with VInt z => z | _ => 0 end]) r)) fuel acc0 bs)
+              (fun vs r => Done (VBytes vs) r)
       | _ => Panic
       end
   | CMap vc vz _ =>
